@@ -30,7 +30,8 @@ def koptk (toks : List String) : Option String := do
   let k := k.toNat
   let act := toNats act
   let r := ofArr (arrOf n (localOpK n (recOf rc) (act.take k) ((act.drop k).take k) (act.drop (2 * k))))
-  pure s!"rec={recStr n r} tour={bit (Spec.Improve.isTourB r n)}"
+  let wf := Spec.Improve.koptMoveWFB n (recOf rc) (act.take k) ((act.drop k).take k) (act.drop (2 * k))
+  pure s!"rec={recStr n r} tour={bit (Spec.Improve.isTourB r n)} wf={bit wf}"
 
 /-- `improve.koptgen n K | rec | mask0 (n flags) | choices` : the action builder, then the move -/
 def koptgen (toks : List String) : Option String := do
@@ -43,7 +44,7 @@ def koptgen (toks : List String) : Option String := do
   let (sel, left, right) := genAction k g
   let r := ofArr (arrOf n (localOpK n rc sel left right))
   let ms := ",".intercalate (g.masks.map bits)
-  pure s!"action={natsStr (sel ++ left ++ right)} adm={bit g.admitted} stopped={bit g.stopped} masks={ms} next={maskBits n g.mask} rec={recStr n r} tour={bit (Spec.Improve.isTourB r n)}"
+  pure s!"action={natsStr (sel ++ left ++ right)} adm={bit g.admitted} stopped={bit g.stopped} masks={ms} next={maskBits n g.mask} rec={recStr n r} tour={bit (Spec.Improve.isTourB r n)} wf={bit (Spec.Improve.koptMoveWFB n rc sel left right)}"
 
 /-- `improve.pdprr gs | rec | pairIdx first second` -/
 def pdprr (toks : List String) : Option String := do
